@@ -164,7 +164,9 @@ claim("C31", "model_checking", "TLA+ reference semantics of WebAssembly integer 
       "rem_s(x,-1) = 0) on self-validated bit-vectors; TLC evaluates every (operator, operand pair) over 12 (quick) / 27 (thorough) boundary operands per width and emits the specified "
       "result or trap (7.5k / 38k cases), checking algebraic laws of the reference in the thorough tier. The harness builds one module with a function per operator, assembles it with Wa's "
       "assembler and calls every case on the embedded wazero in compiler and interpreter mode and on V8 (node). A deviation from the specification that V8 does not share is a violation.",
-      "Trusted: TLC, BV.tla, node/V8 as the independent engine for attribution only. Integer subset; floats, memory and control instructions are not in this check's case space.",
+      "Structured control flow is decided by WasmCtl.tla, an interpreter for block/loop/if-else/br/br_if/br_table/return over statement trees (branch depths valid by construction, every "
+      "loop entry consumes fuel so every program terminates or traps): 11 442 programs x 3 arguments are functions of the same module, so every executor of the hub (wazero both modes, V8, "
+      "wat2c + clang, wat2x64 + gcc, wat2wasm and the printer) runs them. Trusted: TLC, BV.tla, node/V8 as the independent engine for attribution only. Integer subset; floats are not decided.",
       "DESIGN.md section 4 (WebAssembly hub)")
 
 claim("C02", "model_checking", "TLA+ WebAssembly numeric/memory semantics evaluated by TLC (WasmNum.tla) + native execution of every case through wat2x64 + gcc; TLA+ integer kernel (WaInt.tla) + native vs WebAssembly build of the same Wa programs",
